@@ -87,13 +87,13 @@ func hexImportWithSize(re *regexp.Regexp, input string) (*BMNumber, error) {
 		}
 
 		newNumber := BMNumber{}
-		newNumber.number = make([]byte, hexSize)
+		newNumber.number = make([]byte, hexSize/8)
 
 		for i := 0; i < len(decoded); i++ {
 			newNumber.number[i] = decoded[len(decoded)-1-i]
 		}
 
-		for i := len(decoded); i < hexSize; i++ {
+		for i := len(decoded); i < hexSize/8; i++ {
 			newNumber.number[i] = 0
 		}
 
